@@ -81,18 +81,28 @@ def _sub(poly, mapping):
 
 def r2(ctx):
     funcs = {
-        "pe.find_mz_offset": ("start_offset + offset", False),
-        "pe.find_architecture": ("start_offset + offset", False),
-        "pe.find_compile_stamps": ("mz_offset", True),
-        "pe.find_magic_pe": ("mz_offset", True),
-        "pe.find_stage_prepend_append": ("mz_offset", False),
+        "pe.find_mz_offset": ("scan", False),
+        "pe.find_architecture": ("scan", False),
+        "pe.find_compile_stamps": ("found", True),
+        "pe.find_magic_pe": ("found", True),
+        "pe.find_stage_prepend_append": ("found", False),
     }
     total = 0
-    for fq, (base_src, has_sig) in funcs.items():
+    for fq, (base_kind, has_sig) in funcs.items():
         f = ctx.repo.func(fq)
         fh = params(f.node)[0]
         sites = CursorWalk(ctx, f, fh).run()
-        B = sympoly(ast.parse(base_src, mode="eval").body)
+        # the image base: for the scanners `start_offset + <range loop variable>`, for the others the value returned by
+        # find_mz_offset - discovered by role, not by name
+        if base_kind == "scan":
+            lv = [dotted(s2.target) for s2 in statements(f.node) if isinstance(s2, ast.For) and isinstance(s2.iter, ast.Call) and dotted(s2.iter.func) == "range"]
+            B = SymPoly.atom(params(f.node)[1]) + SymPoly.atom(lv[0]) if lv else None
+        else:
+            mz = [dotted(s2.targets[0]) for s2 in statements(f.node) if isinstance(s2, ast.Assign) and isinstance(s2.value, ast.Call) and ctx.rs.resolve_call(f, s2.value).fq == "pe.find_mz_offset"]
+            B = SymPoly.atom(mz[0]) if mz else None
+        if B is None:
+            ctx.ob("R2", "CURSOR", f, "image base", False, "cannot identify the image base (scan variable / find_mz_offset result)")
+            continue
         L = None
         dos = [s for s in sites if s.kind == "parse" and s.what.endswith("IMAGE_DOS_HEADER")]
         if len(dos) != 1:
@@ -320,11 +330,12 @@ def r5(ctx):
     except Exception:
         sample_ok = False
     ctx.ob("R5", "TABLE", "version.py::BeaconVersion.REGEX_VERSION", "pattern", sample_ok, "the version regex separates major/minor/optional patch/date")
-    txt = " ".join(src(s) for s in statements(init.node))
-    t3 = "(int(m.group('major')), int(m.group('minor')), int(m.group('patch')))" in txt
-    t2 = "(int(m.group('major')), int(m.group('minor')))" in txt
-    pg = any(isinstance(s, ast.If) and src(s.test) == "m.group('patch')" for s in statements(init.node))
-    dt = "strptime(m.group('date'), '%b %d, %Y')" in txt
+    from csverif.astutil import find_match, pmatch
+    mv = next((dotted(s2.targets[0]) for s2 in statements(init.node) if isinstance(s2, ast.Assign) and isinstance(s2.value, ast.Call) and dotted(s2.value.func) in ("re.match", "re.fullmatch")), "m")
+    t3 = any(find_match("(int($m.group('major')), int($m.group('minor')), int($m.group('patch')))", s2, {"m": mv}) for s2 in statements(init.node) if isinstance(s2, ast.Assign))
+    t2 = any(find_match("(int($m.group('major')), int($m.group('minor')))", s2, {"m": mv}) for s2 in statements(init.node) if isinstance(s2, ast.Assign))
+    pg = any(isinstance(s2, ast.If) and pmatch("$m.group('patch')", s2.test, {"m": mv}) is not None for s2 in statements(init.node))
+    dt = any(find_match("datetime.datetime.strptime($m.group('date'), '%b %d, %Y')", s2, {"m": mv}) for s2 in statements(init.node) if isinstance(s2, ast.Assign))
     ctx.ob("R5", "AGREE", init, "tuple/date from the named groups", t3 and t2 and pg and dt, f"3-tuple with patch={t3}; 2-tuple without={t2}; arity decided by the patch group={pg}; date parsed from the date group with '%b %d, %Y'={dt}")
 
 
@@ -332,19 +343,30 @@ def r6(ctx):
     f = ctx.repo.func("pe.find_stage_prepend_append")
     fh = params(f.node)[0]
     sites = CursorWalk(ctx, f, fh).run()
-    pre = [s for s in sites if s.kind == "read" and s.what == "mz_offset"]
-    ok = len(pre) == 1 and pre[0].pos == SymPoly.const(0) and pre[0].var == "prepend" and guarded_by(ctx, f, pre[0].node, lambda t: True if src(t) == "mz_offset > 0" else None)
+    mz = next((dotted(s2.targets[0]) for s2 in statements(f.node) if isinstance(s2, ast.Assign) and isinstance(s2.value, ast.Call) and ctx.rs.resolve_call(f, s2.value).fq == "pe.find_mz_offset"), "mz_offset")
+    finals = [r for r in statements(f.node) if isinstance(r, ast.Return) and isinstance(r.value, ast.Tuple) and len(r.value.elts) == 2 and all(isinstance(e, ast.Name) for e in r.value.elts)]
+    PRE, APP = (finals[-1].value.elts[0].id, finals[-1].value.elts[1].id) if finals else ("prepend", "append")
+    pre = [s for s in sites if s.kind == "read" and s.what == mz]
+    ok = len(pre) == 1 and pre[0].pos == SymPoly.const(0) and pre[0].var == PRE and guarded_by(ctx, f, pre[0].node, lambda t: True if src(t) == f"{mz} > 0" else None)
     ctx.ob("R6", "CURSOR", f, "prepend = bytes [0, mz_offset)", bool(ok), "prepend is read from offset 0 for mz_offset bytes when the image does not start the file" if ok else "prepend read is not fh.seek(0); fh.read(mz_offset) under mz_offset > 0")
-    ap = [s for s in sites if s.kind == "read" and s.var == "append"]
-    sz = {src(v) for st, v in assignments_to(f.node, "size") if v is not None}
-    aug = [s for s in statements(f.node) if isinstance(s, ast.AugAssign) and dotted(s.target) == "size"]
-    ok = len(ap) == 1 and ap[0].pos == SymPoly.atom("mz_offset") + SymPoly.atom("size") and any(x.endswith(".SizeOfHeaders") for x in sz) and len(aug) == 1 and src(aug[0].value).endswith(".SizeOfRawData") and isinstance(aug[0].op, ast.Add)
+    ap = [s for s in sites if s.kind == "read" and s.var == APP]
+    SZ = None
+    if len(ap) == 1 and ap[0].pos is not None:
+        rest = ap[0].pos - SymPoly.atom(mz)
+        if len(rest.terms) == 1 and len(rest.atoms()) == 1:
+            SZ = next(iter(rest.atoms()))
+    sz = {src(v) for st, v in assignments_to(f.node, SZ) if v is not None} if SZ else set()
+    aug = [s for s in statements(f.node) if isinstance(s, ast.AugAssign) and dotted(s.target) == SZ]
+    ok = len(ap) == 1 and SZ is not None and any(x.endswith(".SizeOfHeaders") for x in sz) and len(aug) == 1 and src(aug[0].value).endswith(".SizeOfRawData") and isinstance(aug[0].op, ast.Add)
     ctx.ob("R6", "CURSOR", f, "append position", bool(ok), f"append read at {ap[0].pos if ap else None}; required mz_offset + SizeOfHeaders + sum(SizeOfRawData)")
     g = ctx.repo.func("pe.find_magic_mz")
+    from csverif.astutil import pmatch
     rets = [s for s in statements(g.node) if isinstance(s, ast.Return) and isinstance(s.value, ast.Subscript)]
-    ok = len(rets) == 1 and src(rets[0].value) == "data[:pos]"
-    finds = [src(c) for c in fn_calls(g.node) if isinstance(c.func, ast.Attribute) and c.func.attr == "find"]
-    ok = ok and sorted(finds) == ["data.find(DOSHEADER_X64)", "data.find(DOSHEADER_X86)"]
+    m = pmatch("$d[:$p]", rets[0].value) if len(rets) == 1 else None
+    ok = m is not None
+    finds = [c for c in fn_calls(g.node) if isinstance(c.func, ast.Attribute) and c.func.attr == "find"]
+    ok = ok and sorted(dotted(c.args[0]) or "" for c in finds) == ["DOSHEADER_X64", "DOSHEADER_X86"] and all(dotted(c.func.value) == m["d"] for c in finds)
+    ok = ok and all(any(c is x for c in finds) or isinstance(v, ast.IfExp) for st, v in assignments_to(g.node, m["p"]) for x in [origin(g.node, v)] if v is not None) if ok else ok
     env = module_env(ctx.repo.module("pe"))
     stubs = (_c(ctx.repo.const("pe.DOSHEADER_X64"), env), _c(ctx.repo.const("pe.DOSHEADER_X86"), env))
     ok = ok and stubs == (bytes.fromhex("554889e54881"), bytes.fromhex("e8000000005b"))
